@@ -119,6 +119,21 @@ class Ctx:
                 done = tmo
             return r_, None
 
+        def bitblast(timeout):
+            """plain simplify + bit-blast + SAT: after naive bit-blasting structurally different but equal mux /
+            multiplier operand terms hash-cons to the same literals (decisive for the multiply family); not
+            applicable to obligations with array terms"""
+            try:
+                sb = z3.Then('simplify', 'bit-blast', 'sat').solver()
+                sb.set('timeout', timeout)
+                sb.add(self.solver.assertions())
+                for x in extra:
+                    sb.add(x)
+                r_ = sb.check()
+                return r_, (sb.model() if r_ == z3.sat else None)
+            except z3.Z3Exception:
+                return z3.unknown, None
+
         def incr():
             s2 = self.solver
             s2.push()
@@ -133,7 +148,11 @@ class Ctx:
             if r == z3.unknown and not quick:
                 r, m = fresh(self.timeout_ms)
         else:
-            r, m = fresh(min(5000, self.timeout_ms) if quick else self.timeout_ms)
+            r, m = fresh(min(5000, self.timeout_ms) if quick else min(6000, self.timeout_ms))
+            if r == z3.unknown:
+                r, m = bitblast(min(8000 if quick else 30000, self.timeout_ms))
+            if r == z3.unknown and not quick:
+                r, m = fresh(self.timeout_ms)
             if r == z3.unknown and not quick:
                 r, m = incr()
         self.tsolve += time.time() - t
